@@ -36,7 +36,7 @@ LEVEL_NOTE = "Trusted: vlib.linear.expm, pandas Timedelta arithmetic; linear net
 def budget(tier: str) -> dict:
     if tier == "quick":
         return {"examples": 800}
-    return {"examples": 1200, "shards": 16}
+    return {"examples": 1200, "shards": 16, "fuzz_seconds": 45}
 
 
 _rate = st.one_of(st.sampled_from([0.05, 0.25, 1.0, 2.0]), st.integers(5, 200).map(lambda i: i / 100))
